@@ -319,7 +319,7 @@ func (g *qgen) selsFor(typ string, depth int) []Sel {
 			out = append(out, Sel{Alias: "id", Name: "id"})
 		case typ != "Query" && c == 1:
 			out = append(out, Sel{Alias: "org", Name: "org"})
-		case c == 2 && typ != "Query":
+		case c == 2 && (typ != "Query" || r.Chance(40)):
 			out = append(out, Sel{Alias: "__typename", Name: "__typename"})
 		default:
 			if len(fields) == 0 {
